@@ -31,6 +31,7 @@ type nameT struct {
 	tag  string // printable tag used in op strings
 	s    string // the key name handed to the keystore
 	over bool   // encoded filename exceeds nameMax: outside the quantified domain
+	key2 bool   // the second key of the pool is also put under this name
 }
 
 var names []nameT
@@ -55,11 +56,22 @@ func encLen(n string) int {
 func initDomains(r *eng.Run) {
 	add := func(tag, s string) {
 		n := nameT{tag: tag, s: s, over: encLen(s) > nameMax}
+		switch tag {
+		case "a", "A", "../x", "e-acute", "Pk":
+			n.key2 = true
+		}
+		if r.Thorough() && !n.over {
+			n.key2 = true
+		}
 		names = append(names, n)
 		nameByTag[tag] = n
 	}
 	add("a", "a")
 	add("A", "A")
+	// first byte whose base32 text starts with k / e / y, the letters of the file name prefix "key_"
+	add("Pk", "Pk")
+	add("space", " s")
+	add("e-acute", "é")
 	add("a/b", "a/b")
 	add("../x", "../x")
 	add("dot", ".")
@@ -67,7 +79,8 @@ func initDomains(r *eng.Run) {
 	add("len156", strings.Repeat("L", 156)) // longest name whose file name fits (254 chars)
 	add("len157", strings.Repeat("L", 157)) // first one that does not (256 chars)
 	if r.Thorough() {
-		add("e-acute", "é")
+		add("Wz", "Wz")
+		add("quote", "'")
 		add("dotdot", "..")
 		add("/abs", "/etc/hostname")
 		add("a-nul-b", "a\x00b")
@@ -121,6 +134,8 @@ type sys struct {
 	mfs   map[string]int // model of the FS keystore
 	mmem  map[string]int // model of the in-memory keystore
 	base  []string       // listing of S right after construction
+
+	observeEach bool // run the observers after every mutation (config "observe=each")
 }
 
 // decoy files planted in S (the parent of the keystore directory).  A key
@@ -149,7 +164,7 @@ func newSys(cfg string) eng.Sys {
 		panic(err)
 	}
 	top, _ = filepath.Abs(top)
-	s := &sys{top: top, ksdir: filepath.Join(top, "ks"), mfs: map[string]int{}, mmem: map[string]int{}}
+	s := &sys{top: top, ksdir: filepath.Join(top, "ks"), mfs: map[string]int{}, mmem: map[string]int{}, observeEach: cfg == "observe=each"}
 	for n, b := range decoys() {
 		p := filepath.Join(top, n)
 		os.MkdirAll(filepath.Dir(p), 0o700)
@@ -202,7 +217,9 @@ func (s *sys) Ops() []string {
 		ops = append(ops, "Delete "+n.tag)
 	}
 	for _, n := range names {
-		ops = append(ops, "Put "+n.tag+" 1")
+		if n.key2 {
+			ops = append(ops, "Put "+n.tag+" 1")
+		}
 	}
 	ops = append(ops, "PutEmpty")
 	return ops
@@ -224,7 +241,26 @@ func feats(n nameT, present bool, which string) []string {
 	return []string{"store", which, "name", n.tag, "present", fmt.Sprint(present), "over_limit", fmt.Sprint(n.over)}
 }
 
+// Do applies one mutation.  In the "observe=each" configuration every
+// mutation is followed by the pure observers (Has/Get of every pool name and
+// List on both stores, compared with the model) on the SAME instances, so
+// reads are interleaved with writes as a caller could interleave them (a read
+// cache that is not invalidated is reached); in "observe=end" no observer runs
+// before the final Check, so mutation-only histories are covered as well.
 func (s *sys) Do(op string) (string, *eng.Violation) {
+	o, v := s.do(op)
+	if v == nil && s.observeEach {
+		if v = observe("fs", s.fs, s.mfs); v == nil {
+			v = observe("mem", s.mem, s.mmem)
+		}
+		if v != nil {
+			v.Symptom = "interleaved-" + v.Symptom
+		}
+	}
+	return o, v
+}
+
+func (s *sys) do(op string) (string, *eng.Violation) {
 	f := strings.Split(op, " ")
 	switch f[0] {
 	case "PutEmpty":
@@ -242,13 +278,18 @@ func (s *sys) Do(op string) (string, *eng.Violation) {
 		_, pf := s.mfs[n.s]
 		_, pm := s.mmem[n.s]
 		ef := s.fs.Put(n.s, keys[ki])
-		em := s.mem.Put(n.s, keys[ki])
+		// names beyond the filename limit (outside the quantified domain) are
+		// not applied to the in-memory keystore: it would only double the states
+		var em error
+		if !n.over {
+			em = s.mem.Put(n.s, keys[ki])
+		}
 		obs := "fs:" + cls(ef) + ",mem:" + cls(em)
 		// in-memory keystore: plain map with refuse-overwrite
 		wantM := "ok"
 		if pm {
 			wantM = "ErrKeyExists"
-		} else {
+		} else if !n.over {
 			s.mmem[n.s] = ki
 		}
 		if cls(em) != wantM {
@@ -279,7 +320,10 @@ func (s *sys) Do(op string) (string, *eng.Violation) {
 		_, pf := s.mfs[n.s]
 		_, pm := s.mmem[n.s]
 		ef := s.fs.Delete(n.s)
-		em := s.mem.Delete(n.s)
+		var em error
+		if !n.over {
+			em = s.mem.Delete(n.s)
+		}
 		obs := "fs:" + cls(ef) + ",mem:" + cls(em)
 		delete(s.mfs, n.s)
 		delete(s.mmem, n.s)
@@ -431,7 +475,7 @@ func (s *sys) Check() *eng.Violation {
 func spec(r *eng.Run) eng.SeqSpec {
 	theRun = r
 	initDomains(r)
-	return eng.SeqSpec{Configs: []string{"fs+mem"}, New: newSys, Depth: 4}
+	return eng.SeqSpec{Configs: []string{"observe=each", "observe=end"}, New: newSys, Depth: 4}
 }
 
 func main() {
